@@ -71,9 +71,22 @@ def extremeIdx (max : Bool) (l : List (Key × FlatMap)) : Nat :=
   | [] => 0
   | t :: rest => go 1 0 t.1 rest
 
+/-- the completion of this task ends the run with an error (its body or one of its branch
+    conditions fails) -/
+def failsAtCompletion (r : Runner FlatMap) (t : Key × FlatMap) : Bool :=
+  match (execOne r t).2 with
+  | .error _ => true
+  | .ok out =>
+    match r.node? t.1 with
+    | none => false
+    | some n => match selectOf n out with | .error _ => true | .ok _ => false
+
 /-- completion schedules by name -/
-def pickOf (name : String) : Pick FlatMap :=
+def pickOf (r : Runner FlatMap) (name : String) : Pick FlatMap :=
   if name == "first" then fun _ => 0
+  else if name == "okfirst" then
+    -- failures are collected as late as possible: the run executes the largest set of nodes
+    fun l => (l.findIdx? (fun t => !failsAtCompletion r t)).getD 0
   else if name == "last" then fun l => l.length - 1
   else if name == "kmax" then extremeIdx true
   else if name == "kmin" then extremeIdx false
@@ -87,7 +100,7 @@ def taskJson (w : WorkflowDef FlatMap) (t : Key × FlatMap) : Json :=
   Json.mkObj [("k", Json.str t.1), ("in", Json.str (FlatMap.render (seenInput flatOps w.statics t.1 t.2)))]
 
 def runJson (w : WorkflowDef FlatMap) (r : Runner FlatMap) (name : String) (input : FlatMap) : Json :=
-  let o := runEager flatOps r (pickOf name) input
+  let o := runEager flatOps r (pickOf r name) input
   let sub := o.submitted.map (·.1)
   let skipped := (w.nodes.map (·.1)).filter (fun k => !sub.contains k)
   Json.mkObj [
@@ -98,6 +111,43 @@ def runJson (w : WorkflowDef FlatMap) (r : Runner FlatMap) (name : String) (inpu
     ("abandoned", J.mkStrs (o.abandoned.map (·.1))),
     ("skipped", J.mkStrs skipped)]
 
+structure Explored where
+  results : List String := []            -- compressed result JSON, distinct
+  tasks : List (Key × String) := []      -- (node, rendered seen input) submitted in some schedule
+  complete : Bool := true
+
+def addNew {α} [BEq α] (l : List α) (x : α) : List α := if l.contains x then l else x :: l
+
+/-- every completion schedule of the eager loop, depth first, with a budget of visited states
+    (glue for the harness's free-running comparison: which failure a run reports, and which
+    nodes it has started by then, depend on the completion order) -/
+def exploreAll (w : WorkflowDef FlatMap) (r : Runner FlatMap) :
+    Nat → List (Chans FlatMap × List (Key × FlatMap)) → Explored → Explored
+  | _, [], acc => acc
+  | 0, _ :: _, acc => { acc with complete := false }
+  | budget + 1, (cm, running) :: todo, acc =>
+    if running.isEmpty then
+      exploreAll w r budget todo { acc with results := addNew acc.results (resultJson (.error { cls := .noTasks })).compress }
+    else
+      let step := (List.range running.length).foldl (fun (st : List (Chans FlatMap × List (Key × FlatMap)) × Explored) i =>
+        match running[i]? with
+        | none => st
+        | some t =>
+          let rest := running.eraseIdx i
+          let addRes (res : Except Err FlatMap) : List (Chans FlatMap × List (Key × FlatMap)) × Explored :=
+            (st.1, { st.2 with results := addNew st.2.results (resultJson res).compress })
+          match collectOne (execOne r t) with
+          | .error e => addRes (.error e)
+          | .ok d =>
+            match calcNext flatOps r cm [d] with
+            | .error e => addRes (.error e)
+            | .ok (_, .result v) => addRes (.ok v)
+            | .ok (cm', .tasks ts) =>
+              ((cm', rest ++ ts) :: st.1,
+               { st.2 with tasks := ts.foldl (fun l t => addNew l (t.1, FlatMap.render (seenInput flatOps w.statics t.1 t.2))) st.2.tasks }))
+        (todo, acc)
+      exploreAll w r budget step.1 step.2
+
 def handle (c : Json) : JE Json := do
   let w ← parseWorkflow (← J.field c "w")
   let x ← J.str c "input"
@@ -105,8 +155,19 @@ def handle (c : Json) : JE Json := do
   let r := compileW flatOps w
   let input : FlatMap := [("in", x)]
   let runs := scheds.map (fun s => runJson w r s input)
-  let alts := ((runs.map (fun rj => (J.fieldD rj "result" Json.null).compress)).eraseDups).filterMap
-    (fun t => (Json.parse t).toOption)
-  pure (Json.mkObj [("runs", J.mkArr runs), ("alts", J.mkArr alts)])
+  let probed := (runs.map (fun rj => (J.fieldD rj "result" Json.null).compress)).eraseDups
+  let anyErr := runs.any (fun rj => ((J.fieldD rj "result" Json.null).getObjVal? "err").toOption.isSome)
+  -- all schedules (only needed when some run fails: which failure is reported varies)
+  let ex : Explored :=
+    if !anyErr then { results := probed } else
+    match calcNext flatOps r (initChans r) [(START, input)] with
+    | .ok (cm, .tasks ts) =>
+      exploreAll w r (J.natD c "explore" 20000) [(cm, ts)]
+        { tasks := ts.map (fun t => (t.1, FlatMap.render (seenInput flatOps w.statics t.1 t.2))) }
+    | _ => { results := probed }
+  let alts := ((probed ++ ex.results).eraseDups).filterMap (fun t => (Json.parse t).toOption)
+  pure (Json.mkObj [("runs", J.mkArr runs), ("alts", J.mkArr alts),
+    ("altsComplete", Json.bool ex.complete),
+    ("possible", J.mkArr (ex.tasks.map fun t => Json.mkObj [("k", Json.str t.1), ("in", Json.str t.2)]))])
 
 end EinoV.Oracle.C02Workflow
